@@ -11,7 +11,8 @@ from .. import refash as R
 ID = "C02"
 LEVEL = "exploration"
 ENGINE = "E2 ashpeer"
-TECHNIQUE = "deterministic simulation of the serial read path: enumerated and seeded byte streams x read chunkings, differential against a specification-derived decoder"
+TECHNIQUE = ("deterministic simulation of the serial read path: enumerated and seeded byte streams x read chunkings, differential against a specification-derived decoder"
+             ' The live-link engine E1 (host frames in flight, windowed reference NCP, line faults, reads spanning frame boundaries) is a further seeded scenario of this check, with the reference receiver fed the same bytes.')
 LEVEL_TEXT = ("complete sweep of all strings over a 16-symbol reserved-byte-rich alphabet up to a length bound with all chunkings, "
               "plus seeded mutated frame streams with random chunking and a garbage flood for the memory bound; exploration beyond the swept lengths")
 COMPONENTS = e2.COMPONENTS
@@ -193,7 +194,15 @@ def run_flood(params, tape):
     viol = []
     ev = []
     host = e2.SyncHost()
-    garbage_alphabet = bytes(b for b in range(256) if b not in R.RESERVED) if rng.random() < 0.5 else bytes(b for b in range(256) if b != R.FLAG and b != R.CAN and b != R.SUB)
+    x = rng.random()
+    if x < 0.34:
+        garbage_alphabet = bytes(b for b in range(256) if b not in R.RESERVED)
+    elif x < 0.67:
+        garbage_alphabet = bytes(b for b in range(256) if b != R.FLAG and b != R.CAN and b != R.SUB)
+    else:
+        # everything but the FLAG: SUBSTITUTE and CANCEL bytes arrive inside the unterminated garbage (the receiver is then in its
+        # 'discard up to the next FLAG' state while more garbage keeps coming)
+        garbage_alphabet = bytes(b for b in range(256) if b != R.FLAG)
     fed = 0
     calls = 0
     tracemalloc.start()
